@@ -306,6 +306,11 @@ func (w *world) onSnapshotsRequest(l *liar, r int) {
 }
 
 func (w *world) onChunkRequest(l *liar, n int, msg *ssproto.ChunkRequest) {
+	for _, ci := range w.scn.SilentFor {
+		if ci >= 0 && ci < len(w.scn.Catalog) && w.scn.Catalog[ci].Height == msg.Height && w.scn.Catalog[ci].Format == msg.Format {
+			return // nobody serves chunks of this snapshot
+		}
+	}
 	if w.scn.RaceRereq && w.rightBytes(msg.Height, msg.Format, msg.Index) != nil {
 		// the first request for a chunk stays unanswered; when the request is sent again (to this or
 		// another peer) the peer asked first and the peer asked now answer at the same moment
@@ -512,7 +517,11 @@ func runChild(scn *Scenario, outPath string) {
 	if scn.Liveness {
 		stallAfter = 16 * time.Second // generous: the liveness oracles decide on the canary's ticks, not on this
 	}
-	hard := time.After(45 * time.Second)
+	hardCap := 45 * time.Second
+	if scn.LongTimeout {
+		stallAfter, hardCap = 150*time.Second, 260*time.Second // the syncer's chunk timeout is 2 minutes
+	}
+	hard := time.After(hardCap)
 	tick := time.NewTicker(250 * time.Millisecond)
 	last, lastAt := -1, time.Now()
 loop:
@@ -559,6 +568,7 @@ func (w *world) gate() {
 			w.sched.deliver(&item{kind: "adv", peer: p, snap: ci})
 		}
 	}
+	w.sched.hold("gate", 0, holdCtx{sender: -1}) // still before SyncAny looks at the pool
 }
 
 // bootstrap does what node.startStateSync does with the result, on fresh
